@@ -274,6 +274,8 @@ type Case struct {
 	After       []bool `json:"after,omitempty"` // per level: one more write on that level's handle after the inner part
 	Warm        bool   `json:"warm,omitempty"`  // the same program ran before under another context (statement cache filled)
 	CancelFirst bool   `json:"cancelfirst,omitempty"`
+	Ctx         string `json:"ctx"`  // kind of the live context: value | cancel | timeout | deadline
+	Dead        string `json:"dead"` // the dead context of the second half: cancelled | expired (deadline in the past)
 	Hook        string `json:"hook,omitempty"`
 	HookAt      string `json:"hookat,omitempty"`
 	Ops         []Op   `json:"ops"`
@@ -981,6 +983,8 @@ func genCase(rt *rapid.T) Case {
 		c.Warm = rapid.Bool().Draw(rt, "warm")
 	}
 	c.CancelFirst = rapid.Bool().Draw(rt, "cancelfirst")
+	c.Ctx = rapid.SampledFrom([]string{"deadline", "cancel", "timeout", "value"}).Draw(rt, "ctx")
+	c.Dead = rapid.SampledFrom([]string{"cancelled", "expired"}).Draw(rt, "dead")
 	c.Hook = rapid.SampledFrom([]string{"", "", "exec", "create", "count", "preload"}).Draw(rt, "hook")
 	if c.Hook != "" {
 		c.HookAt = rapid.SampledFrom([]string{"before", "after", "all"}).Draw(rt, "hookat")
@@ -1001,6 +1005,8 @@ func classes(c Case) []string {
 	set := map[string]bool{
 		"bind:" + c.Bind:                            true,
 		"prepare:" + c.Prepare:                      true,
+		"ctx:" + c.Ctx:                              true,
+		"dead-ctx:" + c.Dead:                        true,
 		"derive:" + c.Derive:                        true,
 		fmt.Sprintf("tx:%s", c.Tx):                  true,
 		fmt.Sprintf("tx-depth:%d", c.Depth):         true,
@@ -1122,6 +1128,53 @@ func renderEvents(evs []recdrv.Event) string {
 
 var caseSeq int64
 
+// farDeadline is the generous deadline of the live deadline-bearing contexts.
+var farDeadline = time.Date(2099, 1, 2, 3, 4, 5, 0, time.UTC)
+
+// liveContext builds the caller's context of the live half: always the marker
+// value, plus a cancellation and/or deadline of its own depending on kind.
+func liveContext(kind, id string) (context.Context, context.CancelFunc) {
+	base := context.WithValue(context.Background(), markerKey{}, id)
+	switch kind {
+	case "cancel":
+		return context.WithCancel(base)
+	case "timeout":
+		return context.WithTimeout(base, 24*time.Hour)
+	case "deadline":
+		return context.WithDeadline(base, farDeadline)
+	}
+	return base, func() {}
+}
+
+// deadContext builds a context that is already done before the program starts.
+func deadContext(kind, id string) (context.Context, context.CancelFunc, error) {
+	base := context.WithValue(context.Background(), markerKey{}, id)
+	if kind == "expired" {
+		ctx, cancel := context.WithDeadline(base, time.Unix(1, 0))
+		return ctx, cancel, context.DeadlineExceeded
+	}
+	ctx, cancel := context.WithCancel(base)
+	cancel()
+	return ctx, cancel, context.Canceled
+}
+
+// notCallers judges identity of cancellation: got is the context a driver call
+// received, caller the context the handle was bound to. Called after the
+// caller's context has been cancelled (when it can be): the caller's context
+// itself, or any context database/sql derived from it, is done by then and
+// reports the caller's deadline; a detached copy that only forwards values is not.
+func notCallers(got, caller context.Context, callerCancelled bool) string {
+	wantDl, wantOk := caller.Deadline()
+	dl, ok := got.Deadline()
+	if ok != wantOk || !dl.Equal(wantDl) {
+		return fmt.Sprintf("reports deadline (%v, %v), the caller's context reports (%v, %v)", dl, ok, wantDl, wantOk)
+	}
+	if callerCancelled && got.Err() == nil {
+		return "is still live (Err() == nil) after the caller's context was cancelled: it is not the caller's context nor derived from it"
+	}
+	return ""
+}
+
 // rowPrepareFails: known finding class. Row() reached first under the cancelled
 // context on a prepared-statement handle whose cache does not hold the statement yet:
 // PreparedStmtDB.QueryRowContext drops the prepare error and returns an empty sql.Row.
@@ -1143,7 +1196,8 @@ func checkCase(c Case) (msg string, stmts int, herr error) {
 	}
 	defer d.Close()
 
-	live := context.WithValue(context.Background(), markerKey{}, id)
+	live, liveCancel := liveContext(c.Ctx, id)
+	defer liveCancel()
 	other := context.WithValue(context.Background(), markerKey{}, "other-"+id)
 
 	cancelled := func() string {
@@ -1151,8 +1205,8 @@ func checkCase(c Case) (msg string, stmts int, herr error) {
 			evid.Excluded("row-prepare-fails")
 			return ""
 		}
-		cctx, cancel := context.WithCancel(context.WithValue(context.Background(), markerKey{}, id))
-		cancel()
+		cctx, cancel, wantErr := deadContext(c.Dead, id)
+		defer cancel()
 		d.Rec.Reset()
 		err := runProgram(d.DB, c, cctx, other)
 		evs := d.Rec.Events()
@@ -1162,16 +1216,16 @@ func checkCase(c Case) (msg string, stmts int, herr error) {
 			// ... and a PREPARE as well (database/sql checks the context before it hands the
 			// text to the driver), so a preparation that still happens used another context
 			if e.Kind == recdrv.Exec || e.Kind == recdrv.Query || e.Kind == recdrv.Begin || e.Kind == recdrv.Prepare {
-				return fmt.Sprintf("with an already-cancelled context the driver call %s still happened (ctx marker %s, returned error: %v)\n  driver events:\n%s",
-					e.String(), markerOf(e.Ctx), err, renderEvents(evs))
+				return fmt.Sprintf("with an already-%s context the driver call %s still happened (ctx marker %s, returned error: %v)\n  driver events:\n%s",
+					c.Dead, e.String(), markerOf(e.Ctx), err, renderEvents(evs))
 			}
 		}
 		var pe errPanic
 		if errors.As(err, &pe) {
-			return fmt.Sprintf("with an already-cancelled context the operation panicked (%v) instead of returning context.Canceled\n  driver events:\n%s", pe.v, renderEvents(evs))
+			return fmt.Sprintf("with an already-%s context the operation panicked (%v) instead of returning %v\n  driver events:\n%s", c.Dead, pe.v, wantErr, renderEvents(evs))
 		}
-		if !errors.Is(err, context.Canceled) {
-			return fmt.Sprintf("with an already-cancelled context the operation returned %v, want an error wrapping context.Canceled\n  driver events:\n%s", err, renderEvents(evs))
+		if !errors.Is(err, wantErr) {
+			return fmt.Sprintf("with an already-%s context the operation returned %v, want an error wrapping %v\n  driver events:\n%s", c.Dead, err, wantErr, renderEvents(evs))
 		}
 		return ""
 	}
@@ -1195,6 +1249,8 @@ func checkCase(c Case) (msg string, stmts int, herr error) {
 	d.Rec.Reset()
 	err = runProgram(d.DB, c, live, other)
 	evs := d.Rec.Events()
+	// the operation has finished: cancel the caller's context, every context a driver call received must follow
+	liveCancel()
 	for _, e := range evs {
 		if !judged(e.Kind) {
 			continue
@@ -1207,6 +1263,10 @@ func checkCase(c Case) (msg string, stmts int, herr error) {
 		if e.Ctx == nil || e.Ctx.Value(markerKey{}) != interface{}(id) {
 			return fmt.Sprintf("driver call %s received a context with marker %s, want the caller's marker %s\n  driver events:\n%s",
 				e.String(), markerOf(e.Ctx), id, renderEvents(evs)), stmts, nil
+		}
+		if why := notCallers(e.Ctx, live, c.Ctx != "value"); why != "" {
+			return fmt.Sprintf("driver call %s received a context that carries the caller's marker but %s (caller's context kind: %s)\n  driver events:\n%s",
+				e.String(), why, c.Ctx, renderEvents(evs)), stmts, nil
 		}
 	}
 	if err != nil {
@@ -1223,11 +1283,12 @@ func checkCase(c Case) (msg string, stmts int, herr error) {
 
 const rule = "C18: a program = handle bound by WithContext / Session{Context} (also re-bound over another context, derived by Session{} / Session{NewDB}), " +
 	"PrepareStmt off / Config / Session{PrepareStmt} before, with, after the binding or on the innermost handle (optionally with the statement cache filled by the same program under another context), " +
-	"SkipDefaultTransaction on/off, none / Transaction blocks / manual Begin at depth 0..2 with levels committing or rolling back, hooks issuing a statement through their tx, " +
+	"the caller's context a plain value context or one with its own cancellation / timeout / far deadline, SkipDefaultTransaction on/off, none / Transaction blocks / manual Begin at depth 0..2 with levels committing or rolling back, hooks issuing a statement through their tx, " +
 	"and 1-2 operations out of create / create-slice / CreateInBatches / Updates / Model.Update / Save (update, fallback, new, slice) with association graphs (belongs-to, has-one, has-many, nested, many2many, polymorphic; FullSaveAssociations), " +
 	"Delete with Select(associations), Find/First/Take/Last with Preload (single, nested, clause.Associations, conditions) and relation Joins, Association(name).Find/Count/Append/Replace/Delete/Clear, " +
 	"FindInBatches (with statements in the callback), Rows+ScanRows, Row, Scan, Pluck, Count, FirstOrCreate/FirstOrInit, Raw, Exec over a seeded family; " +
-	"judged: every begin/prepare/exec/query driver event of the program carries the case's marker, and under an already-cancelled context no begin/prepare/exec/query event occurs and the error wraps context.Canceled (no panic); " +
+	"judged: every begin/prepare/exec/query driver event of the program carries the case's marker, reports the caller's deadline and is done once the caller's context is cancelled after the operation (a detached copy forwarding only values fails), " +
+	"and under an already-cancelled context or one whose deadline has already passed no begin/prepare/exec/query event occurs and the error wraps context.Canceled / context.DeadlineExceeded (no panic); " +
 	"non-trivial = the operations issued at least 2 exec/query statements (save-point statements not counted) under the live context; distinct = the full program description"
 
 func TestC18(t *testing.T) {
@@ -1285,7 +1346,44 @@ func TestC18Guard(t *testing.T) {
 			t.Errorf("C18 violated: bound handle produced %s with marker %s", e.String(), markerOf(e.Ctx))
 		}
 	}
+
+	// identity of cancellation: a derived child passes, a detached copy that forwards values does not
+	for _, kind := range []string{"cancel", "timeout", "deadline"} {
+		caller, cancel := liveContext(kind, "guard")
+		child, childCancel := context.WithCancel(context.WithValue(caller, struct{}{}, 1))
+		copyOf := valuesOnly{caller}
+		d.Rec.Reset()
+		if err := execOp(d.DB.WithContext(caller), op); err != nil {
+			t.Fatalf("harness: %v", err)
+		}
+		evs := d.Rec.Events()
+		cancel()
+		for _, e := range evs {
+			if judged(e.Kind) {
+				if why := notCallers(e.Ctx, caller, true); why != "" {
+					t.Errorf("C18 violated (%s context): %s received a context that %s", kind, e.String(), why)
+				}
+			}
+		}
+		if why := notCallers(child, caller, true); why != "" {
+			t.Errorf("C18 guard (%s): a context derived from the caller's is rejected: %s", kind, why)
+		}
+		if why := notCallers(copyOf, caller, true); why == "" {
+			t.Errorf("C18 guard (%s): a detached copy forwarding only the values is accepted", kind)
+		}
+		if copyOf.Value(markerKey{}) != interface{}("guard") {
+			t.Errorf("C18 guard: the detached copy should forward the marker")
+		}
+		childCancel()
+	}
 }
+
+// valuesOnly forwards the values of a context but none of its cancellation (guard only).
+type valuesOnly struct{ context.Context }
+
+func (valuesOnly) Deadline() (time.Time, bool) { return time.Time{}, false }
+func (valuesOnly) Done() <-chan struct{}       { return nil }
+func (valuesOnly) Err() error                  { return nil }
 
 // ---- witness of an open finding -----------------------------------------------------------------------
 
